@@ -34,6 +34,29 @@ def same_guard(ctx, chk, fn, floor):
 import props.anchors as anchors
 
 
+def hole_target_removed(ctx, chk, rid):
+    """shared by C10 and C12"""
+    O = ctx.O
+    ww = O.body(WRITE_WITH)
+    lm = O.sites(ww, M(r"rawdb::Database::layout_mut"))
+    rm = [b for b in O.sites(ww, M(r"rawdb::layout::Layout::remove_or_compress_hole"))
+          if ("LAYOUT", "W") in O.held_classes(ww, b)]
+    st = O.typestate(ww, False, rm, lm)
+    n = 0
+    bad = []
+    for b in O.sites(ww, RESERVE):
+        sl = O.slice_back(ww, ww.blocks[b]["term"]["args"][1])
+        if "rawdb::layout::Layout::find_smallest_adequate_hole" in sl["calls"] and "rawdb::layout::Layout::len" not in sl["calls"]:
+            n += 1
+            if not st[b]:
+                bad.append(ww.blocks[b]["term"].get("span"))
+    chk.oblige("%s write_with: a relocation target taken from the hole map is removed from it (remove_or_compress_hole "
+               "under LAYOUT:W) before it is reserved [%d hole-derived reservation(s)]" % (rid, n), n >= 1 and not bad,
+               detail={"sites": bad}, key="%s|write_with|hole-target-still-listed" % rid,
+               msg="while the bytes are copied into a hole that is still listed as reusable, compaction may punch it and "
+                   "allocation may hand it out again")
+
+
 def data_before_placement(ctx, chk, rid):
     """shared by C09 and C10: in write_with the copy of the old bytes and the write of the new ones precede
     RegionMetadata::set_start and Layout::move_region (readers snapshot (start, len) under the metadata lock)."""
@@ -135,6 +158,9 @@ def run(ctx, chk):
                key="A10.2c|typestate|write_with|claim-before-release",
                msg="the space a region grows into must be claimed (set_reserved / Layout::reserve) before the layout "
                    "lock is released, or another thread is handed the same extent while the file is grown")
+    # A10.2d a hole chosen as relocation target is taken out of the reusable-hole maps under the deciding LAYOUT:W
+    # guard (reserving it is not enough: compaction punches what the hole map lists)
+    hole_target_removed(ctx, chk, "A10.2d")
     # A10.6 a Reader pins its region: it owns a Region clone (removal is refused while it is alive)
     rd = P.adts.get("rawdb::reader::Reader")
     if rd is None:
